@@ -205,22 +205,35 @@ Qed.
 Lemma sbo_pframe s s' : same_but_outcome s s' -> pframe s s'.
 Proof. intros F. destruct F. apply pframe_same; assumption. Qed.
 
+Lemma submit_pframe s t : pframe s (submit s t).
+Proof. unfold submit. destruct (session_shut s); [apply sbo_pframe, fail_with_same|apply pframe_same; reflexivity]. Qed.
+
+Lemma bump_pframe s dcl t : pframe s (bump_retry s dcl t).
+Proof.
+  unfold bump_retry. destruct (is_some (fin_exc s)); [apply pframe_same; reflexivity|].
+  apply (pframe_trans s (bump_counters s dcl)); [apply pframe_same; reflexivity|apply submit_pframe].
+Qed.
+
 Lemma set_result_pframe c s h r s' ev : set_result c s h r = (s', ev) -> pframe s s'.
 Proof.
   intros H. destruct r; cbn [set_result] in H;
     try (inversion H; subst; first [apply sbo_pframe, fail_with_same | apply sbo_pframe, finish_with_same
                                    | apply sbo_pframe, finish_rows_same]).
   - destruct (pol c _ k tag _ _) as [d dcl]. unfold handle_decision in H. inversion H; subst; clear H.
-    destruct d; try (apply pframe_same; reflexivity).
+    destruct d.
+    + apply (pframe_trans s (bump_retry (tick_consult s) dcl (TRetry true h))); [|apply pframe_same; reflexivity].
+      apply (pframe_trans s (tick_consult s)); [apply pframe_same; reflexivity|apply bump_pframe].
     + apply (pframe_trans s (fail_with (tick_consult s) (XResp k tag))); [|apply pframe_same; reflexivity].
       exact (sbo_pframe (tick_consult s) _ (fail_with_same _ _)).
     + apply (pframe_trans s (finish_with (tick_consult s) FNone)); [|apply pframe_same; reflexivity].
       exact (sbo_pframe (tick_consult s) _ (finish_with_same _ _)).
+    + apply (pframe_trans s (bump_retry (tick_consult s) dcl (TRetry false h))); [|apply pframe_same; reflexivity].
+      apply (pframe_trans s (tick_consult s)); [apply pframe_same; reflexivity|apply bump_pframe].
   - unfold unprepared in H.
     assert (G : forall ps, unprep_go c s h ps = (s', ev) -> pframe s s').
     { intros [[pid qs] ks0] G. unfold unprep_go in G.
       destruct (negb (uses_ks c) && is_some ks0 && negb (opt_eqb (conn_ks s) ks0)); inversion G; subst;
-        [apply sbo_pframe, fail_with_same|apply pframe_same; reflexivity]. }
+        [apply sbo_pframe, fail_with_same|apply submit_pframe]. }
     destruct (fut_ps c) as [[[pid pqs] pks]|].
     + destruct (negb (pid =? id)); [inversion H; subst; apply sbo_pframe, fail_with_same|].
       destruct (lookup (known c) id); eapply G; eauto.
@@ -248,7 +261,7 @@ Proof.
     destruct (a_done a); [inversion H; subst; apply pframe_same; reflexivity|].
     assert (P0 : pframe s (set_attempts s (mark_done i (attempts s)))).
     { split; [reflexivity|]. exists 0%nat. unfold pages. cbn [attempts set_attempts]. rewrite pages_mark_done, app_nil_r. reflexivity. }
-    destruct (a_prep a); [inversion H; subst; eapply pframe_trans; [exact P0|apply pframe_same; reflexivity]|].
+    destruct (a_prep a); [inversion H; subst; eapply pframe_trans; [exact P0|apply submit_pframe]|].
     destruct (Nat.eqb (a_page a) (page_no s)); [|inversion H; subst; exact P0].
     eapply pframe_trans; [exact P0|eapply set_result_pframe; eauto].
   - destruct (nth_error (queue s) k) as [t|]; [|inversion H; subst; apply pframe_same; reflexivity].
@@ -278,6 +291,40 @@ Definition finishes_otherwise (s s' : state) : Prop :=
 Ltac fin_other := right; right; eexists; split; [reflexivity|intros e0; discriminate].
 Ltac fin_res_changed Hres := right; left; split; [cbn; rewrite Hres; discriminate|reflexivity].
 
+Lemma submit_J s0 h t : task_host t = h -> (forall reuse x, t <> TRetry reuse x) -> Jx s0 [h] -> completed s0 = false ->
+  Jx (submit s0 t) [] \/ finishes_otherwise s0 (submit s0 t).
+Proof.
+  intros T NR J NC. unfold submit. destruct (session_shut s0).
+  - right; right. unfold fail_with. rewrite NC. eexists; split; [reflexivity|intros e0; discriminate].
+  - left. destruct (Jx_push s0 [h] t) as [Ja Jb]; auto.
+    + intros reuse x E. exfalso. eapply NR; eauto.
+    + rewrite T in Jb. eapply Jx_resolve; eauto.
+Qed.
+
+Lemma bump_J s0 h dcl reuse k tag : Jx s0 [h] -> fin_res s0 = None -> fin_exc s0 = None ->
+  Jx (set_err (bump_retry (tick_consult s0) dcl (TRetry reuse h)) h (EResp k tag)) [] \/
+  finishes_otherwise s0 (set_err (bump_retry (tick_consult s0) dcl (TRetry reuse h)) h (EResp k tag)).
+Proof.
+  intros J Hres Hexc. unfold bump_retry. cbn [fin_exc tick_consult]. rewrite Hexc. cbn [is_some]. unfold submit.
+  change (session_shut (bump_counters (tick_consult s0) dcl)) with (session_shut s0).
+  destruct (session_shut s0).
+  - right; right. unfold fail_with, completed. cbn [fin_res fin_exc bump_counters tick_consult]. rewrite Hres, Hexc. cbn.
+    eexists; split; [reflexivity|intros e0; discriminate].
+  - left. set (s1 := push_task (bump_counters (tick_consult s0) dcl) (TRetry reuse h)).
+    assert (J1 : Jx (set_err s1 h (EResp k tag)) [h] /\ covered (set_err s1 h (EResp k tag)) h).
+    { destruct J as [J1 J2]. split; [split|].
+      - intros x Hx. destruct (J1 x Hx) as [G|[G|G]]; auto.
+        + right; left. cbn [errors set_err]. apply keys_upd. auto.
+        + right; right. unfold open_hosts in *. unfold s1. cbn [attempts queue set_err push_task bump_counters tick_consult].
+          rewrite map_app. apply in_app_iff in G. apply in_app_iff.
+          destruct G as [G|G]; [left; exact G|right; apply in_app_iff; left; exact G].
+      - intros reuse0 x Hin. cbn [errors set_err]. apply keys_upd. unfold s1 in Hin.
+        cbn [queue set_err push_task bump_counters tick_consult] in Hin.
+        apply in_app_iff in Hin. destruct Hin as [Hin|[Hin|[]]]; [right; eapply J2; eauto|]. inversion Hin; subst. auto.
+      - left. cbn [errors set_err]. apply keys_upd. auto. }
+    destruct J1 as [Ja Jb]. eapply Jx_resolve; eauto.
+Qed.
+
 Lemma set_result_J c s0 h r s' ev : Jx s0 [h] -> fin_res s0 = None -> fin_exc s0 = None -> set_result c s0 h r = (s', ev) ->
   Jx s' [] \/ finishes_otherwise s0 s'.
 Proof.
@@ -290,43 +337,15 @@ Proof.
     unfold fail_with, finish_with in H. change (completed (tick_consult s0)) with (completed s0) in H. rewrite ?NC in H.
     inversion H; subst; clear H.
     destruct d.
-    + left. set (s1 := bump_retry (tick_consult s0) dcl (TRetry true h)).
-      assert (J1 : Jx (set_err s1 h (EResp k tag)) [h] /\ covered (set_err s1 h (EResp k tag)) h).
-      { destruct J as [J1 J2]. split; [split|].
-        - intros x Hx. destruct (J1 x Hx) as [G|[G|G]]; auto.
-          + right; left. cbn [errors set_err]. apply keys_upd. auto.
-          + right; right. unfold open_hosts in *. unfold s1. cbn [attempts queue set_err bump_retry tick_consult fin_exc].
-            destruct (is_some (fin_exc s0)); [exact G|]. rewrite map_app. apply in_app_iff in G. apply in_app_iff.
-            destruct G as [G|G]; [left; exact G|right; apply in_app_iff; left; exact G].
-        - intros reuse x Hin. cbn [errors set_err]. apply keys_upd. unfold s1 in Hin.
-          cbn [queue set_err bump_retry tick_consult fin_exc] in Hin.
-          destruct (is_some (fin_exc s0)); [right; eapply J2; eauto|].
-          apply in_app_iff in Hin. destruct Hin as [Hin|[Hin|[]]]; [right; eapply J2; eauto|]. inversion Hin; subst. auto.
-        - left. cbn [errors set_err]. apply keys_upd. auto. }
-      destruct J1 as [Ja Jb]. eapply Jx_resolve; eauto.
+    + exact (bump_J s0 h dcl true k tag J Hres Hexc).
     + fin_other.
     + fin_res_changed Hres.
-    + left. set (s1 := bump_retry (tick_consult s0) dcl (TRetry false h)).
-      assert (J1 : Jx (set_err s1 h (EResp k tag)) [h] /\ covered (set_err s1 h (EResp k tag)) h).
-      { destruct J as [J1 J2]. split; [split|].
-        - intros x Hx. destruct (J1 x Hx) as [G|[G|G]]; auto.
-          + right; left. cbn [errors set_err]. apply keys_upd. auto.
-          + right; right. unfold open_hosts in *. unfold s1. cbn [attempts queue set_err bump_retry tick_consult fin_exc].
-            destruct (is_some (fin_exc s0)); [exact G|]. rewrite map_app. apply in_app_iff in G. apply in_app_iff.
-            destruct G as [G|G]; [left; exact G|right; apply in_app_iff; left; exact G].
-        - intros reuse x Hin. cbn [errors set_err]. apply keys_upd. unfold s1 in Hin.
-          cbn [queue set_err bump_retry tick_consult fin_exc] in Hin.
-          destruct (is_some (fin_exc s0)); [right; eapply J2; eauto|].
-          apply in_app_iff in Hin. destruct Hin as [Hin|[Hin|[]]]; [right; eapply J2; eauto|]. inversion Hin; subst. auto.
-        - left. cbn [errors set_err]. apply keys_upd. auto. }
-      destruct J1 as [Ja Jb]. eapply Jx_resolve; eauto.
+    + exact (bump_J s0 h dcl false k tag J Hres Hexc).
   - unfold unprepared, fail_with in H. rewrite ?NC in H.
     assert (G : forall ps, unprep_go c s0 h ps = (s', ev) -> Jx s' [] \/ finishes_otherwise s0 s').
     { intros [[pid qs] ks0] G. unfold unprep_go, fail_with in G. rewrite ?NC in G.
       destruct (negb (uses_ks c) && is_some ks0 && negb (opt_eqb (conn_ks s0) ks0)); inversion G; subst; [fin_other|].
-      left. destruct (Jx_push s0 [h] (TReprepare h qs (if uses_ks c then ks0 else None))) as [Ja Jb]; auto.
-      - intros reuse x E. discriminate.
-      - eapply Jx_resolve; eauto. }
+      exact (submit_J s0 h (TReprepare h qs (if uses_ks c then ks0 else None)) eq_refl (fun _ _ E => ltac:(discriminate)) J NC). }
     destruct (fut_ps c) as [[[pid pqs] pks]|].
     + destruct (negb (pid =? id)); [inversion H; subst; fin_other|].
       destruct (lookup (known c) id); eapply G; eauto.
@@ -359,9 +378,9 @@ Proof.
     destruct (a_done a); [inversion H; subst; left; exact J|].
     pose proof (Jx_done s i a N J) as J0.
     destruct (a_prep a).
-    + inversion H; subst. left.
-      destruct (Jx_push _ [a_host a] (TAfterPrepare (a_host a) r) (fun _ _ E => ltac:(discriminate)) J0) as [Ja Jb].
-      eapply Jx_resolve; eauto.
+    + inversion H; subst.
+      destruct (submit_J (set_attempts s (mark_done i (attempts s))) (a_host a) (TAfterPrepare (a_host a) r) eq_refl
+                  (fun _ _ E => ltac:(discriminate)) J0 (not_completed s Hres Hexc)) as [G|[G|G]]; [left; exact G|right; left; exact G|right; right; exact G].
     + destruct (Nat.eqb (a_page a) (page_no s)) eqn:Pg; [eapply set_result_J in H; eauto|].
       exfalso. apply Nat.eqb_neq in Pg. apply Pg. symmetry.
       unfold all_cur, pages in AC. rewrite Forall_forall in AC. apply AC. apply in_map. eapply nth_error_In; eauto.
@@ -414,27 +433,35 @@ Proof. destruct (finish_rows_res s0 b) as [E _]. destruct (completed s0); [left;
 Lemma fail_res_keep s0 x : res_keep s0 (fail_with s0 x).
 Proof. left. apply fail_with_exc. Qed.
 
+Lemma submit_res s t : fin_res (submit s t) = fin_res s.
+Proof. unfold submit. destruct (session_shut s); [apply fail_with_exc|reflexivity]. Qed.
+
+Lemma bump_res s dcl t : fin_res (bump_retry s dcl t) = fin_res s.
+Proof. unfold bump_retry. destruct (is_some (fin_exc s)); [reflexivity|]. exact (submit_res (bump_counters s dcl) t). Qed.
+
 Lemma step_res_keep c s o s' ev : is_next_page o = false -> step c s o = (s', ev) -> res_keep s s'.
 Proof.
   intros NP H. destruct o as [|i r|k| |h0 p|k|pp]; cbn [step] in H; [| | | | | |discriminate].
   - left. apply walk_frame_ok in H. apply H.
   - destruct (nth_error (attempts s) i) as [a|]; [|inversion H; subst; left; reflexivity].
     destruct (a_done a); [inversion H; subst; left; reflexivity|].
-    destruct (a_prep a); [inversion H; subst; left; reflexivity|].
+    destruct (a_prep a); [inversion H; subst; left; exact (submit_res (set_attempts s (mark_done i (attempts s))) _)|].
     destruct (Nat.eqb (a_page a) (page_no s)); [|inversion H; subst; left; reflexivity].
     set (s0 := set_attempts s (mark_done i (attempts s))) in *.
     change (res_keep s0 s').
     destruct r; cbn [set_result] in H;
       try (inversion H; subst; first [apply finish_res_keep | apply fail_res_keep | apply finish_rows_keep]).
     + destruct (pol c _ k tag _ _) as [d dcl]. unfold handle_decision in H. inversion H; subst.
-      destruct d; try (left; reflexivity).
+      destruct d.
+      * left. exact (bump_res (tick_consult s0) dcl _).
       * exact (fail_res_keep (tick_consult s0) (XResp k tag)).
       * exact (finish_res_keep (tick_consult s0) FNone).
+      * left. exact (bump_res (tick_consult s0) dcl _).
     + unfold unprepared in H.
       assert (G : forall ps, unprep_go c s0 (a_host a) ps = (s', ev) -> res_keep s0 s').
       { intros [[pid qs] ks0] G. unfold unprep_go in G.
         destruct (negb (uses_ks c) && is_some ks0 && negb (opt_eqb (conn_ks s0) ks0)); inversion G; subst;
-          [apply fail_res_keep|left; reflexivity]. }
+          [apply fail_res_keep|left; apply submit_res]. }
       destruct (fut_ps c) as [[[pid pqs] pks]|].
       * destruct (negb (pid =? id)); [inversion H; subst; apply fail_res_keep|].
         destruct (lookup (known c) id); apply G in H; exact H.
